@@ -263,15 +263,15 @@ fn runs_strategy(trials: u64) -> impl Strategy<Value = RunsCase> {
 }
 
 pub fn run(ctx: &Ctx) {
-    ctx.set_rule("proptest generates (m in {1,2,4,7,32,128}, l (sub-check collision: 1..5 (12); sub-check large-l: 6..15, the largest value the constructor accepts, on sequences of up to 18 (22) elements), hasher FNV/WyHash, a base sequence over 1..8 symbols (random or built from runs) and a second sequence derived from it: identical | rotated | one substitution | deletion | insertion | disjoint alphabet | common prefix | independent | reversed, a trial seed). \
+    ctx.set_rule("proptest generates (m in {1,2,4,7,32,128}, l (sub-check collision: 1..5 (12); sub-check large-l: 6..15, the largest value the constructor accepts, on sequences of up to 18 (20) elements), hasher FNV/WyHash, a base sequence over 1..8 symbols (random or built from runs) and a second sequence derived from it: identical | rotated | one substitution | deletion | insertion | disjoint alphabet | common prefix | independent | reversed, a trial seed). \
         Per trial the symbols are relabelled with fresh random u64 labels and one instance hashes both sequences; statistic = fraction of equal positions. Oracle: exact collision probability of the order-min-hash definition by memoised recursion over the next lowest-ranked relevant (element, occurrence) pair \
         (Monte-Carlo of the definition beyond 3e6 states, its error added); decision: Bernstein / empirical-Bernstein bound with per-comparison delta 1e-14, failures re-tested on an independent seed with 4x trials. Non-trivial = 0 < p < 1. Distinct = distinct serialised case.");
     ctx.assume("positions of one signature are correlated, so only the generic variance bound p(1-p) and the empirical variance are used");
     super::run_fixed_tier(ctx, replay);
     let (cases, max_len, max_l, trials) = ctx.tier.pick((192, 14, 5, 12_000), (2400, 30, 12, 40_000));
     ctx.drive("collision", cases, 16, 24, || strategy(max_len, 1, max_l, trials), eval);
-    // long selections: l from 6 to 15 (the constructor requires l < 16) on sequences of up to 18 (22) elements
-    let (cases, max_len, max_l, trials) = ctx.tier.pick((48, 18, 15, 8_000), (480, 22, 15, 30_000));
+    // long selections: l from 6 to 15 (the constructor requires l < 16) on sequences of up to 18 (20) elements
+    let (cases, max_len, max_l, trials) = ctx.tier.pick((48, 18, 15, 8_000), (240, 20, 15, 20_000));
     ctx.drive("large-l", cases, 16, 24, || strategy(max_len, 6, max_l, trials), eval);
     // very long runs of one element: occurrence numbers beyond 2^16; the selected occurrence must be uniform
     let (cases, trials) = ctx.tier.pick((6, 260), (64, 1000));
